@@ -3,7 +3,9 @@ import GrafeoModel.Driver.Proto
 
 /-! Stream `val`: value wrappers (C16). Values are tokens:
 `N` `B0|B1` `I<dec>` `F<16 hex>` `S<hex utf8>` `Y<hex>` `T<dec>` `V(<8 hex>;..)` `L(<v>;..)`
-`M(<hex key>=<v>;..)`. -/
+`M(<hex key>=<v>;..)`.
+`f2i` / `trunc` tie the models of `f as i64` and `f.trunc()` (used by the exact Int64/Float64
+comparison) to the hardware. -/
 namespace Grafeo.DriverVal
 open Grafeo.Val Grafeo.F64 Grafeo.Proto
 
@@ -90,6 +92,10 @@ def handle (args : List String) : Option Proto.Out :=
   | ["i2f", i] => do
     let i ← i.toInt?
     pure { model := toString (i64ToF64 i) }
+  | ["f2i", a] => do pure { model := toString (f64ToI64 (← hexNat a)) }
+  | ["trunc", a] => do
+    let a ← hexNat a
+    pure { model := if isNaN a then "nan" else toString (truncBits a) }
   | ["of.eq", a, b] => do pure { model := boolStr (ofEq (← hexNat a) (← hexNat b)) }
   | ["of.cmp", a, b] => do pure { model := ordStr (ofCmp (← hexNat a) (← hexNat b)) }
   | ["of.law", a, b] => do
@@ -104,10 +110,15 @@ def handle (args : List String) : Option Proto.Out :=
     let v := if ofEq a b && ofEq b c && !ofEq a c then "eq-not-transitive"
       else if ofCmp a b != .gt && ofCmp b c != .gt && ofCmp a c == .gt then "cmp-not-transitive" else "ok"
     pure (mk v "ok" ("ordered-float-" ++ v))
+  -- spec of `==` / `cmp`: equality / lexicographic order of the exact order keys (`ovKey`)
   | ["ov.eq", a, b] => do
-    pure { model := boolStr (ovEq (← toOV (← parseHV a.toList)) (← toOV (← parseHV b.toList))) }
+    let a ← toOV (← parseHV a.toList)
+    let b ← toOV (← parseHV b.toList)
+    pure (mk (boolStr (ovEq a b)) (boolStr (ovKey a == ovKey b)) "orderable-eq-not-value-equality")
   | ["ov.cmp", a, b] => do
-    pure { model := ordStr (ovCmp (← toOV (← parseHV a.toList)) (← toOV (← parseHV b.toList))) }
+    let a ← toOV (← parseHV a.toList)
+    let b ← toOV (← parseHV b.toList)
+    pure (mk (ordStr (ovCmp a b)) (ordStr (keyCmp (ovKey a) (ovKey b))) "orderable-cmp-not-value-order")
   | ["ov.hash", a] => do pure { model := feedStr (ovHashFeed (← toOV (← parseHV a.toList))) }
   | ["ov.law", ta, tb] => do
     let a ← toOV (← parseHV ta.toList)
@@ -119,7 +130,8 @@ def handle (args : List String) : Option Proto.Out :=
     let b ← toOV (← parseHV b.toList)
     let c ← toOV (← parseHV c.toList)
     let v := if ovEq a b && ovEq b c && !ovEq a c then "eq-not-transitive"
-      else if ovCmp a b != .gt && ovCmp b c != .gt && ovCmp a c == .gt then "cmp-not-transitive" else "ok"
+      else if ovCmp a b != .gt && ovCmp b c != .gt && ovCmp a c == .gt then "cmp-not-transitive"
+      else if ovEq a b && (ovCmp a c != ovCmp b c || ovCmp c a != ovCmp c b) then "cmp-ignores-eq" else "ok"
     pure (mk v "ok" ("orderable-" ++ v))
   | ["hv.eq", a, b] => do pure { model := boolStr (hvEq (← parseHV a.toList) (← parseHV b.toList)) }
   | ["hv.hash", a] => do pure { model := feedStr (hvFeed (← parseHV a.toList)) }
